@@ -281,18 +281,8 @@ def build_dev(c):
 
 
 def step_decoy(c):
-  import copy
-  T0 = copy.deepcopy(c['t'])
-  for x in tg.nodes(T0):
-    if x.get('sbounds'):
-      x['sbounds'], x['sb_kind'] = None, 'none'
-    L = x.get('leaf')
-    if L and L.get('cbounds') and L['cls'] != 'CDevice2':
-      L['cbounds'], L['cb_kind'] = None, 'none'
-      for k in ('recb',):
-        L.pop(k, None)
   try:
-    d0 = tg.build_tree(T0)
+    d0 = tg.build_tree(tg.predecessor(c['t']))
     s = np.array(fl(c['s']))
     S().step(d0, tg.py_price(c['p']), s.reshape(d0.shape), float(c['step']))
   except Exception:
